@@ -20,6 +20,26 @@ fn push(ctx: &mut Ctx, op: u32, label: &str, ins: &[&[u8]], out: Vec<Vec<u8>>) {
 fn ok_or_panic(r: Option<Vec<u8>>) -> Vec<Vec<u8>> { match r { Some(v) => vec![vec![0], v], None => vec![vec![2]] } }
 fn pk(r: Option<Result<[u8; 32], u8>>) -> Vec<Vec<u8>> { match r { None => vec![vec![2]], Some(Ok(k)) => vec![vec![0], k.to_vec()], Some(Err(e)) => vec![vec![1, e]] } }
 
+/// 2^(8*zero_bytes) * m, m odd with `odd_len` bytes (top byte non-zero), little-endian
+fn pow2_times_odd(rng: &mut Rng, zero_bytes: usize, odd_len: usize) -> Vec<u8> {
+    let mut v = vec![0u8; zero_bytes];
+    let mut m = rng.bytes(odd_len);
+    m[0] |= 1; let l = m.len(); if m[l - 1] == 0 { m[l - 1] = 1; }
+    v.extend_from_slice(&m); v
+}
+/// operands at limb boundaries
+fn limb_shape(rng: &mut Rng, i: usize) -> Vec<u8> {
+    let k = [4usize, 8, 12, 16, 24, 8, 8, 16][i % 8];
+    match (i / 8) % 6 {
+        0 => pow2_times_odd(rng, k, 32 - k),                       // low limbs zero, rest random, 32 bytes
+        1 => pow2_times_odd(rng, k, 1),                            // small multiple of 2^(8k)
+        2 => { let mut v = vec![0u8; k]; v.push(1); v }            // exactly 2^(8k)
+        3 => vec![0xff; k],                                        // 2^(8k) - 1
+        4 => { let mut v = rng.bytes(k); v.extend_from_slice(&vec![0u8; 32 - k]); v }   // only low limbs set, high zero bytes
+        _ => { let mut v = vec![0u8; k]; v.extend_from_slice(&rng.bytes(1)); v.extend_from_slice(&vec![0u8; 31 - k]); v }
+    }
+}
+
 pub fn run(ctx: &mut Ctx) {
     let mut rng = ctx.rng("corr");
     ctx.notes.push(format!("this binary uses the {} back end", if is_fast() { "GMP (srp-fast-math)" } else { "num-bigint (srp-default-math)" }));
@@ -38,12 +58,27 @@ pub fn run(ctx: &mut Ctx) {
         push(ctx, 24, "is_zero / mod is zero", &[&v, &m], match catch(|| (hk::bigint::is_zero(&v), { let mut n = [0u8; 32]; n[..m.len().min(32)].copy_from_slice(&m[..m.len().min(32)]); hk::bigint::mod_large_safe_prime_is_zero(&v, n) })) {
             Some((a, b)) => vec![vec![0], vec![a as u8], vec![b as u8]], None => vec![vec![2]] });
     }
+    // limb-boundary shapes (32- and 64-bit limbs): low limbs zero with a non-zero rest, exact powers of
+    // two and their predecessors -- a back end that inspects only some limbs differs exactly here
+    let n_limb = if ctx.quick() { 48 } else { 480 };
+    for i in 0..n_limb {
+        let v = limb_shape(&mut rng, i);
+        push(ctx, 20, "to_bytes_le(from_bytes_le(v)), limb-boundary operand", &[&v], vec![vec![0], hk::bigint::roundtrip_le(&v)]);
+        if v.len() <= 32 { push(ctx, 21, "to_padded_32, limb-boundary operand", &[&v], ok_or_panic(catch(|| hk::bigint::to_padded_32(&v).to_vec()))); }
+        let m: Vec<u8> = match i % 4 { 0 => NLE.to_vec(), 1 => limb_shape(&mut rng, i + 1), 2 => vec![0, 0, 0, 0, 0, 0, 0, 0, 1], _ => { let mut x = rng.bytes(32); x[0] |= 1; x } };
+        if m.len() <= 32 && m.iter().any(|b| *b != 0) {
+            push(ctx, 24, "is_zero / mod is zero, limb-boundary operand", &[&v, &m], match catch(|| (hk::bigint::is_zero(&v), { let mut n = [0u8; 32]; n[..m.len()].copy_from_slice(&m); hk::bigint::mod_large_safe_prime_is_zero(&v, n) })) {
+                Some((a, b)) => vec![vec![0], vec![a as u8], vec![b as u8]], None => vec![vec![2]] });
+        }
+    }
     let n_pow = if ctx.quick() { 40 } else { 400 };
     for i in 0..n_pow {
         let base = rng.bytes([1usize, 8, 32][i % 3]);
         let sub = if i % 2 == 0 { rng.bytes(32) } else { vec![] };           // base - sub negative about half the time
         let exp: Vec<u8> = match i % 8 { 0 => vec![], 1 => vec![0], 2 => vec![1], 3 => vec![2], 4 => vec![0xff; 20], 5 => vec![0xff; 32], _ => rng.bytes(32) };
-        let m: Vec<u8> = match i % 10 { 0 | 1 | 2 => NLE.to_vec(), 3 => vec![3], 4 => vec![2], 5 => vec![1], 6 => vec![10], 7 => vec![0, 0, 1], 8 => vec![0xfb], _ => { let mut x = rng.bytes(32); x[0] |= 1; x } };
+        let m: Vec<u8> = match i % 13 { 0 | 1 | 2 => NLE.to_vec(), 3 => vec![3], 4 => vec![2], 5 => vec![1], 6 => vec![10], 7 => vec![0, 0, 1], 8 => vec![0xfb],
+                                         9 => pow2_times_odd(&mut rng, 8, 16), 10 => pow2_times_odd(&mut rng, 4, 12), 11 => pow2_times_odd(&mut rng, 16, 8), _ => { let mut x = rng.bytes(32); x[0] |= 1; x } };
+        let base = if i % 5 == 4 { let mut b = base.clone(); b[0] &= 0xfe; b } else { base };   // even bases meet even moduli
         let label = format!("modpow: exponent {} / modulus {}", if exp.iter().all(|b| *b == 0) { "zero" } else { "positive" }, if m[0] % 2 == 0 { "even" } else { "odd" });
         push(ctx, 22, &label, &[&base, &sub, &exp, &m], ok_or_panic(catch(|| hk::bigint::modpow_of_difference(&base, &sub, &exp, &m))));
         let (a, b, c) = (rng.bytes(32), rng.bytes(20), rng.bytes(32));
@@ -64,8 +99,15 @@ pub fn run(ctx: &mut Ctx) {
     let moduli = primes_le();
     let mut extra: Vec<[u8; 32]> = moduli.clone();
     for m in [2u8, 4, 10, 1] { let mut x = zero32; x[0] = m; extra.push(x); }
+    // N' = 2^(8k) * m with m odd (and the bare power of two): with an even generator the client's
+    // public key is a non-zero multiple of 2^(8k); N - 1 (even, not a multiple of 2^32)
+    for (k, ml) in [(8usize, 16usize), (8, 24), (4, 8), (16, 8), (8, 0), (16, 0), (2, 1)] {
+        let v = if ml == 0 { let mut x = vec![0u8; k]; x.push(1); x } else { pow2_times_odd(&mut rng, k, ml) };
+        let mut x = zero32; x[..v.len()].copy_from_slice(&v); extra.push(x);
+    }
+    { let mut x = NLE; x[0] -= 1; extra.push(x); }
     for (mi, n) in extra.iter().enumerate() {
-        let g = [7u8, 2, 3, 255][mi % 4];
+        let g = if mi >= 15 { [2u8, 6, 2, 10, 2, 6, 4, 2][(mi - 15) % 8] } else { [7u8, 2, 3, 255][mi % 4] };
         let (bb, a): ([u8; 32], [u8; 32]) = (rng.arr(), if mi % 5 == 4 { zero32 } else { rng.arr() });
         let (x, u): ([u8; 20], [u8; 20]) = (if mi % 7 == 6 { [0u8; 20] } else { rng.arr() }, rng.arr());
         push(ctx, 10, &format!("client S, modulus #{} ({})", mi, if n[0] % 2 == 0 { "even" } else { "odd" }), &[&bb, &x, &a, &u, &[g], n], ok_or_panic(catch(|| hk::calculate_client_s(bb, x, a, u, g, *n).to_vec())));
@@ -93,6 +135,13 @@ pub fn run(ctx: &mut Ctx) {
         if let Some(out) = client_api(&u, &p, 3, n2, b_pub, salt, &a, &[]) {
             let pn = ns(&p);
             push(ctx, 3, &format!("client API, announced N' = {}", n2[0]), &[un.as_ref().as_bytes(), pn.as_ref().as_bytes(), &[3], &n2, &b_pub, &salt, &a, &[]], out);
+        }
+        // announced group N' = 2^64 * m (m odd) with an even generator: A is a non-zero multiple of 2^64
+        let n3 = { let v = pow2_times_odd(&mut rng, 8, 8 + k % 16); let mut x = zero32; x[..v.len()].copy_from_slice(&v); x };
+        let g3 = [2u8, 6, 10][k % 3];
+        if let Some(out) = client_api(&u, &p, g3, n3, b_pub, salt, &a, &[]) {
+            let pn = ns(&p);
+            push(ctx, 3, "client API, announced N' = 2^64 * odd, even generator", &[un.as_ref().as_bytes(), pn.as_ref().as_bytes(), &[g3], &n3, &b_pub, &salt, &a, &[]], out);
         }
         vr::install_tape(&salt);
         let vf = catch(|| SrpVerifier::from_username_and_password(ns(&u), ns(&p)));
